@@ -48,6 +48,16 @@ def budget_table(v, len_call_bb):
             c = v.callee(bb)
             leaves.append(((lo, hi), "empty" if c.fn is not None and c.base() == "std::string::String::new" else "other", None))
             return
+        # `return message;` where message is the (still empty) String created up front
+        for st in blk["stmts"]:
+            if st["k"] == "assign" and st["place"]["l"] == 0 and not st["place"]["p"] and st["rv"]["k"] == "use" and st["rv"]["op"]["k"] in ("move", "copy"):
+                src = strip_refs(canon(v, v.origin(st["rv"]["op"])))
+                if src[0] == "call" and call_name(v, src) == "std::string::String::new":
+                    # nothing was appended on the way here?
+                    pushes = [x for x, c2 in v.calls() if c2.fn is not None and c2.name in ("push_str", "push", "write_fmt", "write_str", "extend", "insert_str")
+                              and bb in v.reachable(x)]
+                    leaves.append(((lo, hi), "empty" if not pushes else "other", None))
+                    return
         if t["k"] == "switch":
             info = v.switch_info(bb)
             src = info.get("src")
@@ -312,7 +322,9 @@ def run(ctx):
     else:
         leaves = budget_table(v, lens[0])
         table = merge_intervals(leaves)
-        if any(val == "other" for _, val in table) or not table:
+        covered = sorted(iv for iv, _ in table)
+        gaps = (not covered) or covered[0][0] != 0 or covered[-1][1] < INF or any(covered[i][1] + 1 != covered[i + 1][0] for i in range(len(covered) - 1))
+        if any(val == "other" for _, val in table) or not table or gaps:
             f_ = fnd("C18.BUDGET", v, "the dispatch on the length was not fully read (%s): budget table not extracted (undecided)" % (
                 [(a, b2 if b2 < INF else "inf", val) for ((a, b2), val) in table]))
             f_.undecided = True
